@@ -55,12 +55,16 @@ struct Config {
     lock: LockKind,
     uv_yields: usize,
     store_yields: usize,
+    /// reference store only: list newest first and let id-less lookups succeed
+    newest_first: bool,
+    /// reference store only: the store refuses the k-th counter update
+    update_fault: Option<usize>,
 }
 
 impl Config {
     fn json(&self) -> Value {
         json!({"configuration": self.name, "ceremonies": self.cers.iter().map(|c| format!("{c:?}")).collect::<Vec<_>>(), "store": format!("{:?}", self.store),
-            "lock": format!("{:?}", self.lock), "uv_yields": self.uv_yields, "store_yields": self.store_yields})
+            "lock": format!("{:?}", self.lock), "uv_yields": self.uv_yields, "store_yields": self.store_yields, "newest_first": self.newest_first, "update_fault": self.update_fault})
     }
 }
 
@@ -79,6 +83,8 @@ struct RunOut {
     branching: Vec<u8>,
     choices: Vec<u8>,
     final_store: Vec<CredSnap>,
+    /// the sequential warm-up assertion (credential id, counter)
+    warm: Option<(Vec<u8>, u32)>,
 }
 
 fn seed_creds() -> Vec<Passkey> {
@@ -100,6 +106,11 @@ fn run_config(cfg: &Config, choose: &mut dyn FnMut(usize, usize) -> usize) -> Ru
                 uv.set_yields(cfg.uv_yields);
                 auths.push(mk_auth(shared.clone(), uv, AuthCfg { counters: true, ..Default::default() }));
             }
+            // a sequential warm-up assertion on credential 0, completed before the concurrent phase
+            let warm = {
+                let r = crate::exec::block_on(auths[0].get_assertion(ga_request(RP, &[9u8; 32], Some(vec![descriptor(&creds[0].credential_id)]), None, true, true)));
+                r.ok().map(|r| (r.credential.map(|d| d.id.to_vec()).unwrap_or_default(), authdata::decode(&r.auth_data.to_vec()).map(|d| d.counter).unwrap_or(0)))
+            };
             let mut tasks: Vec<BoxFut<Result<(Vec<u8>, u32), u8>>> = Vec::new();
             for (a, c) in auths.iter_mut().zip(cfg.cers.iter()) {
                 let c = *c;
@@ -139,7 +150,7 @@ fn run_config(cfg: &Config, choose: &mut dyn FnMut(usize, usize) -> usize) -> Ru
             }
             drop(auths);
             let final_store: Vec<CredSnap> = $snap(&shared);
-            RunOut { results, end: r.end, branching: r.branching, choices: r.choices, final_store }
+            RunOut { results, end: r.end, branching: r.branching, choices: r.choices, final_store, warm }
         }};
     }
     match (cfg.store, cfg.lock) {
@@ -184,7 +195,11 @@ fn run_config(cfg: &Config, choose: &mut dyn FnMut(usize, usize) -> usize) -> Ru
 /// NoCredentials (as the shipped in-memory store's do), but - unlike that store - it suspends inside
 /// the call while the wrapper holds the lock: the error path of the wrappers becomes schedulable.
 fn fail_idless_lookups(st: &RecStore, cfg: &Config) {
-    if cfg.cers.contains(&Cer::AssertAny) {
+    st.set_newest_first(cfg.newest_first);
+    if let Some(k) = cfg.update_fault {
+        st.set_fault(crate::collab::Kind::Update, k, 0x28);
+    }
+    if cfg.cers.contains(&Cer::AssertAny) && !cfg.newest_first {
         for k in 0..16 {
             st.set_fault(crate::collab::Kind::Find, k, 0x2E);
         }
@@ -277,7 +292,17 @@ fn configs(thorough: bool) -> Vec<Config> {
                 for uv_yields in [1usize, 2] {
                     let sy: Vec<usize> = if store == StoreKind::Rec { if thorough { vec![0, 1] } else { vec![1] } } else { vec![0] };
                     for store_yields in sy {
-                        v.push(Config { name, cers: cers.clone(), store, lock, uv_yields, store_yields });
+                        v.push(Config { name, cers: cers.clone(), store, lock, uv_yields, store_yields, newest_first: false, update_fault: None });
+                        if store == StoreKind::Rec && uv_yields == 1 {
+                            // a conforming store that lists newest first and answers id-less lookups
+                            if cers.contains(&Cer::AssertAny) {
+                                v.push(Config { name, cers: cers.clone(), store, lock, uv_yields, store_yields, newest_first: true, update_fault: None });
+                            }
+                            // a store that refuses one counter update
+                            if cers.iter().any(|c| matches!(c, Cer::Assert(_))) {
+                                v.push(Config { name, cers: cers.clone(), store, lock, uv_yields, store_yields, newest_first: false, update_fault: Some(1) });
+                            }
+                        }
                     }
                 }
             }
@@ -313,7 +338,10 @@ fn scheduler_engine(rep: &mut Report, args: &Args, only: Option<u64>) {
                         rep.nontrivial(h ^ (idx << 48));
                     }
                     let case = json!({"index": idx, "engine": "scheduler", "config": cfg.json(), "schedule": out.choices, "results": out.results.iter().map(|r| format!("{:?}", r.result)).collect::<Vec<_>>()});
-                    let items: Vec<_> = out.results.iter().map(|r| (r.cer, r.result.clone(), r.first_step as u64, r.last_step as u64)).collect();
+                    let mut items: Vec<_> = out.results.iter().map(|r| (r.cer, r.result.clone(), r.first_step as u64 + 2, (r.last_step as u64).saturating_add(2))).collect();
+                    if let Some(w) = &out.warm {
+                        items.push((Cer::Assert(0), Some(Ok(w.clone())), 0, 0));
+                    }
                     let before = rep.get("duplicate_counter_runs");
                     let dl = match &out.end {
                         SchedEnd::Deadlock { unfinished } => Some(format!("unfinished ceremonies {unfinished:?} after schedule {:?}", out.choices)),
@@ -358,7 +386,7 @@ fn scheduler_engine(rep: &mut Report, args: &Args, only: Option<u64>) {
             1 => vec![Cer::Assert(0), Cer::Assert(0), Cer::Assert(0)],
             _ => vec![Cer::Assert(0), Cer::Register, Cer::Assert(1)],
         };
-        let cfg = Config { name: "three mixed", cers, store: *rng.pick(&[StoreKind::Memory, StoreKind::Rec]), lock: *rng.pick(&[LockKind::Mutex, LockKind::RwLock]), uv_yields: rng.range(1, 2), store_yields: rng.below(2) };
+        let cfg = Config { name: "three mixed", cers, store: *rng.pick(&[StoreKind::Memory, StoreKind::Rec]), lock: *rng.pick(&[LockKind::Mutex, LockKind::RwLock]), uv_yields: rng.range(1, 2), store_yields: rng.below(2), newest_first: rng.chance(1, 4), update_fault: if rng.chance(1, 4) { Some(rng.below(3)) } else { None } };
         let r = catch(|| {
             let mut r2 = rng.clone();
             let mut choose = |_s: usize, n: usize| r2.below(n);
@@ -369,7 +397,10 @@ fn scheduler_engine(rep: &mut Report, args: &Args, only: Option<u64>) {
                 rep.eval();
                 rep.nontrivial(fnv(&out.choices) ^ (idx << 40));
                 let case = json!({"index": idx, "engine": "scheduler-sampled", "config": cfg.json(), "schedule": out.choices});
-                let items: Vec<_> = out.results.iter().map(|r| (r.cer, r.result.clone(), r.first_step as u64, r.last_step as u64)).collect();
+                let mut items: Vec<_> = out.results.iter().map(|r| (r.cer, r.result.clone(), r.first_step as u64 + 2, (r.last_step as u64).saturating_add(2))).collect();
+                if let Some(w) = &out.warm {
+                    items.push((Cer::Assert(0), Some(Ok(w.clone())), 0, 0));
+                }
                 let dl = match &out.end {
                     SchedEnd::Deadlock { unfinished } => Some(format!("unfinished {unfinished:?}")),
                     SchedEnd::StepCap => Some("step cap".into()),
